@@ -39,6 +39,11 @@ WIRELIKE = [[b'\x03www\x07example\x03com\x00'], [b'\x05ab', b'cd\x00'], [b'\x01a
 def host(c, r, i):
     labels = [label(r) for _ in range(1 + r.below(4))]
     if r.chance(1, 8): labels = list(r.choice(WIRELIKE))        # text that already looks like an encoded name / a pointer: still just labels
+    if i % 6 == 5:
+        # names that read as something richer than a name (an authority with a port, a URL, an address literal, a mail address, a
+        # service label): every byte that is not a dot belongs to a label
+        labels = r.choice(['www.example.com:8080', 'a:1', 'a:b', ':80', 'a:', 'a:1.com', 'http://x', 'user@example.com', '[::1]', '::1', 'a/b', 'a?b=c', '_sip._tcp.example.com',
+                           '*.example.com', 'xn--nxasmq6b.com', '10.0.0.1', '10.0.0.1:53', 'a b.c', 'A.B', 'a\\.b.c']).encode().split(b'.')
     name = b'.'.join(labels)
     ips = [r.below(2 ** 32) for _ in range(r.choice([0, 1, 2, 5, 40]) if not r.chance(1, 12) else r.choice([255, 256, 257, 1000]))]   # counts around 2^8 too
     if ips and r.chance(1, 2):      # repeated addresses, adjacent and not
